@@ -25,6 +25,7 @@ def run(ck):
     q = ck.quick()
     models.heur_mc(ck, ["greedy", "roundrobin"], ["PartStep", "FinalOK"], maxn=5 if q else 6, maxv=5, maxk=4)
     models.kk_mc_replay(ck, 5 if q else 6, 5, 4)
+    models.kk_mc_replay(ck, 11 if q else 12, 2, 3, invariants=("Conservation", "SpreadBounded"))
     models.multifit_mc_replay(ck, 5 if q else 6, 5, 4)
     # unbounded item values (Apalache, symbolic): the gap bound and the round-robin shape as inductive invariants
     for K in ((3,) if q else (2, 3, 4, 5)):
@@ -35,6 +36,10 @@ def run(ck):
     groups = []
     for g in P:
         g = dict(g); g["calls"] = calls_for(g); groups.append(g)
+    # "coarse" universe: many items, few distinct small values (0..2) - where priority-queue and tie-breaking slips of KK / greedy first show
+    for g in scope.p_scope(ck, 11 if q else 13, 2, 4):
+        if len(g["vals"]) >= 7 and g["k"] >= 2:
+            g = dict(g); g["calls"] = calls_for(g, its=(10, 2)); groups.append(g)
     fam = gen.part_families(ck.rng, 300 if q else 15000, maxn=9 if q else 10, maxv=60, maxk=4)
     for g in fam:
         if g["k"] ** len(g["vals"]) > 1200000:
